@@ -47,17 +47,17 @@ func (r *recorder) log(c int, proc, name string, kv ...any) {
 }
 
 type live struct {
-	g       *service.GoJT808
-	addr    string
-	rec     *recorder
-	mu      sync.Mutex
-	evs     []*liveEventer        // accept order
-	conns   map[any]int           // connection pointer (hooks) -> index
-	newConn chan int              // signalled when a connection's writer started (first hook)
-	gate    func(c int, point string, args []any) // optional scheduler gate (steering)
-	cmds    sync.Map              // *service.ActiveMessage -> caller id
-	readHold func(c int, m *service.Message) // optional: runs inside the read callback
-	replyHold func(c int, serial int)        // optional: runs at W.reply.before
+	g         *service.GoJT808
+	addr      string
+	rec       *recorder
+	mu        sync.Mutex
+	evs       []*liveEventer                        // accept order
+	conns     map[any]int                           // connection pointer (hooks) -> index
+	newConn   chan int                              // signalled when a connection's writer started (first hook)
+	gate      func(c int, point string, args []any) // optional scheduler gate (steering)
+	cmds      sync.Map                              // *service.ActiveMessage -> caller id
+	readHold  func(c int, m *service.Message)       // optional: runs inside the read callback
+	replyHold func(c int, serial int)               // optional: runs at W.reply.before
 }
 
 type liveEventer struct {
